@@ -1,10 +1,12 @@
 """C05 Functions turned into procedure calls are evaluated once, first, and in order.
 
-Space: every statement template (assignment, IF plain / ELSE / ELSE-IF arm / THEN-statement,
+Space: (a) every statement template (assignment, IF plain / ELSE / ELSE-IF arm / THEN-statement,
 FOR bounds, PRINT / PRINT@ items, subscripts on either side, ON selector, every device
 operand slot, READ / INPUT subscripts, WIDTH) x operand shapes built from convertible
 functions (single, siblings, nested in each other, nested in built-ins, in subscripts),
-with scripted device values so that the call order is observable.
+with scripted device values so that the call order is observable; (b) each of them executed a second
+time through a jump back to its line; (c) every simple template inside every control context
+(IF / ELSE / ELSE-IF arms taken and not taken, nested IF, FOR body, before / after another statement or a remark).
 Oracle: the BASIC09 model's log of runtime calls (procedure, input arguments) must equal
 the Color BASIC model's evaluation log (innermost first, left to right); no temporary is
 read before it is assigned; final values agree.
@@ -60,6 +62,36 @@ def gen(run):
             cases.append({"text": "\n".join(again) + "\n", "origin": f"{name}:{how}:twice", "tpl": name})
         run.states += 1 + len(seen)
         run.transitions += len(seen)
+    # every simple statement template inside every control context (IF arms taken and not taken, FOR body, after / before
+    # another statement, after a remark), key operand shapes in all slots
+    from vf.gen import spaces
+    key_n = [x for x in NUM if x[0] in (("int", "btn2", "int_int", "elem_int") if run.tier == "quick" else [y[0] for y in NUM])]
+    key_s = [x for x in STR if x[0] in (("str", "inkey2", "string_int") if run.tier == "quick" else [y[0] for y in STR])]
+    n_ctx = 0
+    for name, body, after in K.TEMPLATES:
+        if body.startswith(("IF", "FOR", "READ", "ON", "DATA")) or after:
+            continue
+        sl = K.slots(body)
+        if not sl:
+            continue
+        seen = set()
+        for sn_n, st_n in key_n:
+            for sn_s, st_s in (key_s if "s" in sl else [("-", "")]):
+                filled = K.fill(body, [st_n if x == "n" else st_s for x in sl])
+                for c in spaces.CONTEXTS[1:]:
+                    cname, ctpl, cafter, cbefore = spaces.ctx_parts(c)
+                    for aval in ((1, 2, 3) if cname in ("then", "else", "then_else", "elseif_arm", "elseif_else", "elseif_both", "nested_then") else (1,)):
+                        if cname == "elseif_arm" and aval == 3:
+                            continue  # ELSE-IF chain without a final ELSE and no arm taken: the known C02 finding (spins), not C05's subject
+                        text = K.template_program(ctpl.replace("{}", filled), cafter, before=cbefore)
+                        text = text.replace('V = 3 : W = 4 : V$ = "AB" : A = 1', f'V = 3.5 : W = 4.5 : V$ = "AB" : A = {aval} : B = 2')
+                        if text in seen:
+                            continue
+                        seen.add(text)
+                        cases.append({"text": text, "origin": f"ctx:{cname}:A={aval}:{name}:{sn_n}/{sn_s}", "tpl": name})
+        n_ctx += len(seen)
+    run.states += n_ctx
+    run.transitions += n_ctx
     return cases
 
 
@@ -199,7 +231,7 @@ def run(run):
                 run.sample({"program": c["text"], "origin": c["origin"], "verdict": kind, "symptom": sym})
             if kind == "violation":
                 f = FE.source_features(c["text"]) | {"tpl:" + c["tpl"]}
-                if c["tpl"].startswith("print") and re.search(r"PRINT.*[-+*/]", c["text"].split("\n")[2]):
+                if c["tpl"].startswith("print") and any(re.search(r"PRINT.*[-+*/]", ln) for ln in c["text"].split("\n")[2:] if not ln.startswith(("100 ", "110 "))):
                     f.add("print-numeric-expression")
                 run.violation(sym, f, {"text": c["text"]}, f"{c['origin']}: {detail}\nsource: {c['text']!r}\noutput tail: {(out or '')[-300:]!r}")
     run.distinct_n = decided
